@@ -19,7 +19,7 @@ them: whether the 0xCA handler of get_sdr_data_helper ends in `continue`, which 
 function `_get_sdr_chunk` renews with, whether `send_message` re-raises non-busy codes, and whether
 the reservation id get_sdr_chunk_helper obtains after a cancellation is handed on (`staleRes`): the
 chunk readers return / attach `req.reservation_id`, get_sdr_data_helper adopts it at the header
-read, at every chunk read and in the CompletionCodeError handler and returns it
+read, at every chunk read and in the 0xCA branch of its CompletionCodeError handler and returns it
 (`with_reservation`), the entries generators adopt it for the next record (through
 `_get_repository_sdr` / `_get_device_sdr`).  All of these places or none: a tree that hands the id
 on in some places only is outside the grammar (TieBroken).
@@ -249,14 +249,16 @@ def _data_helper(tree):
             and _u(t.handlers[0].type) == 'CompletionCodeError' and t.handlers[0].name == 'e', w, t, 'try/except around get_fn')
     hands['data_helper:chunk read'] = _u(t.body[0]).startswith('next_id, data, reservation_id =')
     h = t.handlers[0].body
-    hands['data_helper:CompletionCodeError handler'] = len(h) == 2
-    if len(h) == 2:
-        _expect(_u(h[0]) == "reservation_id = getattr(e, 'reservation_id', reservation_id)", w, h[0],
-                "expected `reservation_id = getattr(e, 'reservation_id', reservation_id)`")
-        h = h[1:]
     _expect(len(h) == 1 and isinstance(h[0], ast.If), w, t.handlers[0], 'handler is one if/else')
     ca = _eq_code(h[0].test, 'e.cc', w)
-    hb = h[0].body
+    hb = list(h[0].body)
+    # intended: the id the chunk reader's request ended up with is taken from the exception before the read is repeated
+    adopt = [s for s in hb if _u(s) == "reservation_id = getattr(e, 'reservation_id', reservation_id)"]
+    hands['data_helper:0xCA branch of the CompletionCodeError handler'] = bool(adopt)
+    if adopt:
+        _expect(len(adopt) == 1 and len(hb) == 4 and hb[2] is adopt[0], w, h[0],
+                '0xCA branch: decrement, zero test, adopt the reservation id, continue')
+        hb = hb[:2] + hb[3:]
     _expect(len(hb) in (2, 3), w, h[0], '0xCA branch: decrement, zero test[, continue]')
     dec = _decr(hb[0], 'max_req_len', w)
     _expect(isinstance(hb[1], ast.If) and not hb[1].orelse and len(hb[1].body) == 1, w, hb[1], 'zero-length test')
